@@ -419,3 +419,29 @@ pub fn apply_step(s: &mut Src, sh: &Shape, changes: &[(u64, u64)], transition: i
     vcover!(true, "done");
     crate::state::forget(r);
 }
+
+/// Two steps: the leader applies a membership change, then receives an append ack.
+/// Covers "removed / demoted leader keeps serving until it steps down" without panics (C20).
+pub fn apply_then_ack(s: &mut Src, sh: &Shape, changes: &[(u64, u64)], from: u64, idx_off: u64) {
+    let (mut r, g) = mk_raft(s, sh);
+    let mut cc = ConfChangeV2::default();
+    let mut i = 0;
+    while i < changes.len() {
+        let mut c = ConfChangeSingle::default();
+        c.change_type = changes[i].0 as i32;
+        c.node_id = changes[i].1;
+        cc.changes.push(c);
+        i += 1;
+    }
+    let res = r.apply_conf_change(&cc);
+    assert!(res.is_ok());
+    r.msgs.clear();
+    let mut m = crate::state::msg(raft::eraftpb::MessageType::MsgAppendResponse, from, r.term);
+    m.index = sh.base + idx_off;
+    let c0 = r.raft_log.committed;
+    let res = r.step(m);
+    assert!(res.is_ok());
+    assert!(r.raft_log.committed >= c0);
+    vcover!(r.raft_log.committed > c0, "commit advanced after the membership change");
+    crate::state::forget(r);
+}
